@@ -99,6 +99,27 @@ Section Sched.
     end.
 End Sched.
 
+(* ---- the schedule alone (no vectors): which refresh vector is in force at each step ------
+   [m] selections exist, the vector in force has number [c] in the refresh stream; the
+   result lists, for each of the next [steps] selections, the number of the vector in force
+   when that selection is made. *)
+Fixpoint idx_steps (re m c steps : nat) : list nat :=
+  match steps with
+  | O => []
+  | S s => c :: idx_steps re (S m) (if refresh_due re (S m) then S c else c) s
+  end.
+Fixpoint idx_after (re m c steps : nat) : nat :=
+  match steps with
+  | O => c
+  | S s => idx_after re (S m) (if refresh_due re (S m) then S c else c) s
+  end.
+
+(* [i] is the first arg-max of [V] among the items not in [chosen] *)
+Definition best_wrt (n : nat) (V : list Z) (chosen : list nat) (i : nat) : Prop :=
+  (i < n)%nat /\ ~ In i chosen /\
+  (forall u, (u < n)%nat -> ~ In u chosen -> nth u V 0 <= nth i V 0) /\
+  (forall u, (u < i)%nat -> ~ In u chosen -> nth u V 0 < nth i V 0).
+
 (* ---- correspondence: selections and presented vectors, from the refresh vectors alone ---- *)
 Definition sched_ok (re n : nat) (R : list (list Z)) (ks : list nat)
            (obs_sel : list nat) (obs_stream : list (list Z)) : bool :=
